@@ -434,15 +434,19 @@ func fnHello(ctx *cmdContext, args map[string]any) (output respValue, err error)
 						return
 					}
 				}
+				simBeforeLock(&ctx.cs.mu, "ctx.cs.mu")
 				ctx.cs.mu.Lock()
 				ctx.cs.name = str
 				ctx.cs.mu.Unlock()
+				simAfterUnlock(&ctx.cs.mu, "ctx.cs.mu")
 			}
 		}
 		if hasVer {
+			simBeforeLock(&ctx.cs.mu, "ctx.cs.mu")
 			ctx.cs.mu.Lock()
 			ctx.cs.respVersion = int(ver)
 			ctx.cs.mu.Unlock()
+			simAfterUnlock(&ctx.cs.mu, "ctx.cs.mu")
 		}
 	}
 
